@@ -46,7 +46,7 @@ EXPR_POOL = [
     "r#\"->\"#", "1.0e3", "0x1f", "core::convert::identity", "|(a, b)| a", "|&v| v", "|v| v.0",
     "|v| -> Result<u8, ()> { Ok(v) }", "x?.y", "f(a, b)(c)", "S { a: 1, b: 2 }", "(S { a: 1 })",
     "|v| S { a: v }", "return_closure()", "|v| v >> 1", "|v| v > 1", "|v| 1 < v", "|v| v >= 1 && v <= 9",
-    "|v| v..=9", "x?", "|v| -v", "|v| !v", "a => b", "|v| v as Vec<u8>", "a -> b", "a |> b", "0..3", "..", "a, b",
+    "|v| v..=9", "x?", "a()?", "foo.bar(1)?", "|v| v?", "x?.y?", "|v| -v", "|v| !v", "a => b", "|v| v as Vec<u8>", "a -> b", "a |> b", "0..3", "..", "a, b",
 ]
 MEMBER_POOL = ["len()", "0", "unwrap_or(3)", "iter().map(|v| v + 1)", "foo::<Vec<Vec<u8>>>(a, b)", "x", "into_iter()", "and_then(|v| Some(v))", "1.0", "clone().len()", "unwrap_or_else(|| 7)", "max(1, 2)", "await"]
 TYPE_POOL = ["Vec<_>", "Vec<Vec<Vec<u8>>>", "std::collections::HashMap<u8, Vec<u8>>", "(u8, u8)", "[u8; 3]", "Box<dyn Fn(u8) -> u8>", "_", "String", "&'static str", "<T as Tr>::Out", "fn(u8) -> u8", "Option<fn() -> u8>", "impl Iterator<Item = u8>"]
@@ -85,6 +85,7 @@ class Branch:
         self.mut = False
         self.initial = None
         self.members = []
+        self.omit_comma = False
 
     def canon(self):
         s = "B:"
@@ -136,7 +137,10 @@ class Input:
             last = i == len(items) - 1
             if kind == "b":
                 t = it.render(ws)
-                if not last or self.trailing_comma:
+                next_is_handler = (not last) and items[i + 1][0] == "h"
+                if it.omit_comma and it.ends_with_block() and (next_is_handler or last):
+                    pass  # the comma is optional after a block operand (only a handler or the end may follow)
+                elif not last or self.trailing_comma:
                     t += ","
                 out.append(t)
             else:
@@ -187,18 +191,36 @@ class Gen:
             ms.append(self.member_for(rng.choice(OPS)[0], deferred))
         return ms
 
+    def fix_q(self, initial, members):
+        """Operands ending in `?` must not be followed by an operator that starts with `?`."""
+        def next_starts_q(i):
+            return i + 1 < len(members) and not members[i + 1].deferred and q_conflict(members[i + 1].spelling)
+        safe = [e for e in self.expr if e not in QOPERANDS]
+        safe_init = [e for e in self.initial if e not in QOPERANDS]
+        if initial in QOPERANDS and members and not members[0].deferred and q_conflict(members[0].spelling):
+            initial = self.rng.choice(safe_init)
+        for i, m in enumerate(members):
+            if m.operands and m.operands[-1] in QOPERANDS and next_starts_q(i):
+                m.operands[-1] = self.rng.choice(safe)
+        return initial
+
     def branch(self, length, named=False):
         b = Branch()
         if named:
             b.name = self.rng.choice(["a", "res", "x1", "value"])
             b.mut = self.rng.random() < 0.3
-        b.initial = self.rng.choice(self.initial)
-        if named:
+        b.members = self.chain(length)
+        for _ in range(200):
+            b.initial = self.rng.choice(self.initial)
             # `let name = <expr>` is parsed as a Rust `let` expression, whose right-hand side may not be a
             # bare struct literal (as in `if let`); that is a limitation of the DSL, not a split-point question
-            while self.struct_literal(b.initial):
-                b.initial = self.rng.choice(self.initial)
-        b.members = self.chain(length)
+            if named and self.struct_literal(b.initial):
+                continue
+            if self.fix_q(b.initial, b.members) != b.initial:
+                continue
+            break
+        # a branch whose last operand is a block may omit the comma in front of a handler
+        b.omit_comma = self.rng.random() < 0.5
         return b
 
     @staticmethod
@@ -240,8 +262,19 @@ def pool_candidates():
     return rows
 
 
+QOPERANDS = set()
+
+
+def q_conflict(spelling):
+    """Would a `?` in front of this operator spelling form another operator (`?>`, `??`, `?|>`, `?^@`, ...)?"""
+    return spelling[0] in "?>" or spelling in ("|>", "^@")
+
+
 def pools_from(admitted):
-    adm = set(admitted)
+    adm = set(a.split(":")[0] for a in admitted)
+    for a in admitted:
+        if a.endswith(":q") and a.startswith("e"):
+            QOPERANDS.add(EXPR_POOL[int(a.split(":")[0][1:])])
     expr = [e for i, e in enumerate(EXPR_POOL) if "e%d" % i in adm]
     member = [e for i, e in enumerate(MEMBER_POOL) if "m%d" % i in adm]
     typ = [e for i, e in enumerate(TYPE_POOL) if "t%d" % i in adm]
@@ -291,6 +324,7 @@ def rt_cases(rng, pools, tier):
                     if not ok:
                         continue
                     br.members = ms
+                    br.initial = g.fix_q(br.initial, br.members)
                     inp = Input()
                     inp.branches = [br]
                     cases.append(inp)
@@ -302,6 +336,7 @@ def rt_cases(rng, pools, tier):
             br = Branch()
             br.initial = rng.choice(g.initial)
             br.members = [g.member_for(nm), g.member_for("Dot", spelling=sp), g.member_for(nm, True)]
+            br.initial = g.fix_q(br.initial, br.members)
             inp = Input()
             inp.branches = [br]
             cases.append(inp)
@@ -320,14 +355,25 @@ def rt_cases(rng, pools, tier):
                 _, spellings, nn, kind2, _ = OP[name]
                 cnt = nn[1] if isinstance(nn, tuple) else nn
                 m = Member(name, spellings[0], [opnd] + [g.operand(kind2) for _ in range(cnt - 1)], m.deferred, False)
-            br.members = [m, g.member_for(rng.choice(OPS)[0])]
+            follower_ops = [o for o in OPS if not any(q_conflict(sp) for sp in o[1])] if opnd in QOPERANDS else OPS
+            br.members = [m, g.member_for(rng.choice(follower_ops)[0])]
+            br.initial = g.fix_q(br.initial, br.members)
             inp = Input()
             inp.branches = [br]
             cases.append(inp)
+            if opnd in QOPERANDS:
+                # `?`-terminated operand in front of a comma and of a handler
+                br2 = Branch()
+                br2.initial = rng.choice([e for e in g.initial if e not in QOPERANDS])
+                br2.members = [Member(m.name, m.spelling, list(m.operands), m.deferred, False)]
+                inp2 = Input()
+                inp2.branches = [br2, g.branch(1)]
+                inp2.handler = ("map", rng.choice(g.handler), 1)
+                cases.append(inp2)
     for init in g.initial:
         br = Branch()
         br.initial = init
-        br.members = [g.member_for(rng.choice(OPS)[0])]
+        br.members = [g.member_for(rng.choice([o for o in OPS if not any(q_conflict(sp) for sp in o[1])] if init in QOPERANDS else OPS)[0])]
         inp = Input()
         inp.branches = [br]
         cases.append(inp)
